@@ -12,6 +12,9 @@ import (
 // knownOpen: obligations listed as open findings in known_findings.json (by base name).
 var knownOpen = map[string]bool{}
 
+// knownOpenAny: the open findings of every property (their clauses are never assumed at call sites).
+var knownOpenAny = map[string]bool{}
+
 func solveOblig(o *Oblig, budget int) SolveResult {
 	if r, ok := cacheLookup(o); ok {
 		return r
